@@ -174,6 +174,27 @@ def generate():
     sl = need(sl, "learning/broadcast flag table in GenericCloud::new", "let (learning, broadcast) = (false, false);")
     out += ("\n#[derive(Clone, Copy, PartialEq)]\npub enum Type {\n    Tun,\n    Tap,\n}\npub struct XModeCfg {\n    pub mode: Mode,\n    pub device_type: Type,\n}\n"
             "pub fn mode_flags_slice(config: &XModeCfg) -> (bool, bool) {\n        " + sl + "\n    (learning, broadcast)\n}\n")
+    # connect_to_peers: the whole function (what a node does with a received peer list), over a projection of the node
+    ctp = need(extract_item(cloud, r"^    fn connect_to_peers\s*\("), "GenericCloud::connect_to_peers in src/cloud.rs",
+               "    fn connect_to_peers(&mut self, _peers: &[PeerInfo]) -> Result<(), Error> { unimplemented!() }")
+    if not re.search(r"^\s*own_addresses: AddrList,", cloud, re.M):
+        problems.append("GenericCloud.own_addresses is no longer an AddrList")
+    if not re.search(r"\bnode_id: NodeId,", extract_item(cloud, r"^(?:pub )?struct PeerData\s*") or ""):
+        problems.append("PeerData.node_id: NodeId not found in src/cloud.rs")
+    msgs = rd("src/messages.rs")
+    if not re.search(r"^pub type AddrList = SmallVec<\[SocketAddr; 4\]>;", msgs, re.M):
+        problems.append("messages.rs: AddrList is no longer SmallVec<[SocketAddr; 4]>")
+    if not re.search(r"pub struct PeerInfo \{\s*pub node_id: Option<NodeId>,\s*pub addrs: AddrList,\s*\}", msgs):
+        problems.append("messages.rs: PeerInfo is no longer { node_id: Option<NodeId>, addrs: AddrList }")
+    # address and identity types are abstracted to u16 newtypes (a bare u16 would select std's chunked slice::contains; [u8; 16] forces unwind 17): the function uses addresses only through ==, contains, contains_key and copy
+    out += ("\n#[allow(unused_imports)]\nuse smallvec::{smallvec, SmallVec};\n#[derive(Clone, Copy, PartialEq, Eq, Hash, Debug)]\npub struct SocketAddr(pub u16);\nuse crate::error::Error;\n"
+            "pub type AddrList = SmallVec<[SocketAddr; 4]>;\npub struct PeerInfo {\n    pub node_id: Option<NodeId>,\n    pub addrs: AddrList,\n}\n#[derive(Clone, Copy, PartialEq, Eq, Hash, Debug)]\npub struct NodeId(pub u16);\n"
+            "pub struct XPeerId {\n    pub node_id: NodeId,\n}\n"
+            "pub struct XMesh {\n    pub node_id: NodeId,\n    pub peers: crate::vstd::collections::HashMap<SocketAddr, XPeerId>,\n"
+            "    pub own_addresses: AddrList,\n    pub dialled: smallvec::ivec::IVec<SocketAddr, 4>,\n}\nimpl XMesh {\n"
+            "    /// recorder standing in for GenericCloud::connect (which starts a handshake and changes neither peers nor own_addresses)\n"
+            "    fn connect(&mut self, addrs: &[SocketAddr]) -> Result<(), Error> {\n        if !addrs.is_empty() {\n            self.dialled.push(addrs[0]);\n        }\n        Ok(())\n    }\n"
+            + ctp + "\n}\n")
     write_if_changed(os.path.join(K.GEN, "extracted.rs"), out)
     # 3. playback dispatch
     hs = all_harnesses()
